@@ -150,8 +150,13 @@ class BaseInstance:
                     cells.append(x)
             newlen = n + len(vals)
             cap = vec.cap
-            eng.oblige(st, z3.UGE(cap, bv(newlen, 64)) if not z3.is_bv_value(cap) else (TRUE if cap.as_long() >= newlen else FALSE),
-                       'model', 'extend within reserved capacity (reallocation inside extend is not modelled)')
+            # Vec::extend reserves first: capacity unchanged when it suffices, else amortised growth max(2*cap, len+additional)
+            need = bv(newlen, 64)
+            dbl = cap + cap
+            grown = ite(z3.UGE(dbl, need), dbl, need)
+            cap = ite(z3.UGE(cap, need), cap, grown)
+            if z3.is_bv_value(vec.cap):
+                cap = z3.simplify(cap)
             eng.write(st, args[0], VecVal(bv(newlen, 64), cells, cap))
             return R(UNIT)
         if re.match(r'^Option::<.*>::unwrap$', c):
